@@ -255,7 +255,7 @@ func c15SortInPlace(c *Ctx) {
 			return true
 		}
 		pos = call.Pos()
-		if canonPath(info, call.Args[0]) == "Surface.Children" {
+		if canonPath(info, c15SortedSlice(info, call.Args[0])) == "Surface.Children" { // (c15x.go: slice conversions and wrapper literals share the backing array)
 			ok = true
 		} else {
 			what = "the sort is applied to " + types.ExprString(call.Args[0]) + ", not to s.Children itself"
